@@ -268,8 +268,12 @@ pub fn csi_params() -> BoxedStrategy<Vec<u8>> {
         6 => "[0-9]{1,3}",
         1 => "[0-9]{4,6}",
         1 => "[0-9]{7,25}",
-        1 => Just("65535".to_owned()),
-        1 => Just("65536".to_owned()),
+        // saturation boundary of the 16-bit parameter values
+        2 => select(vec![
+            "6552", "6553", "6554", "65529", "65530", "65531", "65532", "65533", "65534", "65535", "65536", "65537", "65539",
+            "65540", "065534", "0065535", "655350", "655349", "99999", "100000", "32767", "32768", "4294967295", "4294967296",
+        ])
+        .prop_map(|s| s.to_owned()),
     ];
     let sep = prop_oneof![4 => Just(';'), 1 => Just(':')];
     let count = prop_oneof![6 => 0usize..=5, 2 => 6usize..=30, 2 => 31usize..=34, 1 => 35usize..=40];
